@@ -30,6 +30,7 @@ SKIP_FUNCS = {"compute_mmax", "rel_cost_x", "compute_mx", "mx_close_formula",
               "first_operation", "next_operation", "convert_old_to_branch",
               "convert_new_to_branch", "set_to_print", "__del__"}
 
+OPS2 = "--ops2" in sys.argv
 CMP = {ast.Lt: ast.LtE, ast.LtE: ast.Lt, ast.Gt: ast.GtE, ast.GtE: ast.Gt,
        ast.Eq: ast.NotEq, ast.NotEq: ast.Eq}
 BIN = {ast.Add: ast.Sub, ast.Sub: ast.Add}
@@ -73,6 +74,20 @@ def points(tree):
             elif isinstance(node, ast.Name) and node.id in ("Move", "Copy") \
                     and isinstance(node.ctx, ast.Load):
                 out.append((node, ("swapname",), fn))
+            elif OPS2 and isinstance(node, ast.Name) and \
+                    node.id in ("min", "max") and isinstance(node.ctx, ast.Load):
+                out.append((node, ("minmax",), fn))
+            elif OPS2 and isinstance(node, ast.Call) and len(node.args) >= 2 \
+                    and not any(isinstance(a, ast.Starred) for a in node.args):
+                out.append((node, ("swapargs",), fn))
+            elif OPS2 and isinstance(node, ast.Subscript) and \
+                    isinstance(node.slice, ast.UnaryOp) and \
+                    isinstance(node.slice.op, ast.USub) and \
+                    isinstance(node.slice.operand, ast.Constant) and \
+                    node.slice.operand.value == 1:
+                out.append((node, ("lastfirst",), fn))
+            elif OPS2 and isinstance(node, ast.Compare) and False:
+                pass
             elif isinstance(node, ast.Assign) and len(node.targets) == 1 and \
                     isinstance(node.targets[0], ast.Attribute) and \
                     isinstance(node.targets[0].value, ast.Name) and \
@@ -103,6 +118,12 @@ def apply(node, how):
         raise NotImplementedError
     elif k == "swapname":
         node.id = "Copy" if node.id == "Move" else "Move"
+    elif k == "minmax":
+        node.id = "max" if node.id == "min" else "min"
+    elif k == "swapargs":
+        node.args[0], node.args[1] = node.args[1], node.args[0]
+    elif k == "lastfirst":
+        node.slice = ast.Constant(0)
     elif k == "delassign":
         raise NotImplementedError
 
@@ -119,6 +140,8 @@ def mutants_of(src):
     pts = points(tree)
     res = []
     for idx in range(len(pts)):
+        if OPS2 and pts[idx][1][0] not in ("minmax", "swapargs", "lastfirst"):
+            continue
         t2 = ast.parse(src)
         p2 = points(t2)
         node, how, fn = p2[idx]
